@@ -179,6 +179,18 @@ func init() {
 	harnessPrims["vClockNsec"] = func(r *Run, _ *frame, _ *ssa.Function, args []Value) Value {
 		return r.B.ZExt(r.clockLog[cint(args[0])][1], 64)
 	}
+	// vFreezeStrings(what string, s []string): the whole backing array of s (up to its capacity) must not be written again.
+	harnessPrims["vFreezeStrings"] = func(r *Run, _ *frame, _ *ssa.Function, args []Value) Value {
+		sl, ok := args[1].(Slice)
+		if !ok || sl.A == nil {
+			return nil
+		}
+		if r.frozen == nil {
+			r.frozen = map[*Agg]string{}
+		}
+		r.frozen[sl.A] = cstr(args[0])
+		return nil
+	}
 	harnessPrims["vMapOrder"] = func(r *Run, _ *frame, _ *ssa.Function, args []Value) Value {
 		r.reverseMaps = r.asInt(args[0]).IsTrue()
 		return nil
